@@ -135,6 +135,30 @@ CmdVisibleM(d, c) == IF c = 1 THEN TRUE ELSE ~d.cmds[c].hidden /\ CmdVisibleM(d,
 RECURSIVE CmdPathM(_, _)
 CmdPathM(d, c) == IF c = 1 THEN <<>> ELSE Append(CmdPathM(d, d.cmds[c].parent), d.cmds[c].name)
 ManLong(nm) == <<BACKSLASH, 102, 66, BACKSLASH, DASH, BACKSLASH, DASH>> \o nm \o <<BACKSLASH, 102, 82>>       \* \fB\-\-name\fR
+\* the .TP entry of one option, exactly as writeManPageOptions prints it (man.go:75-118)
+ManQ(t) == FoldLeft(LAMBDA acc, c : IF c = BACKSLASH THEN acc \o <<BACKSLASH, BACKSLASH>> ELSE Append(acc, c), E, t)
+QuoteV(vs) == Join([i \in 1..Len(vs) |-> QuoteS(vs[i])], <<44, SPACE>>)
+fB == <<BACKSLASH, 102, 66>>
+fR == <<BACKSLASH, 102, 82>>
+fI == <<BACKSLASH, 102, 73>>
+fP == <<BACKSLASH, 102, 80>>
+DefaultOpen == <<SPACE, 60, 100, 101, 102, 97, 117, 108, 116, COLON, SPACE>> \o fI          \*  <default: \fI
+ManEntry(s, o) ==
+  LET od == s.opts[o]
+      key == EnvKey(s.d, od) IN
+  fB \o (IF od.short # 0 THEN fB \o <<BACKSLASH, DASH, od.short>> \o fR ELSE E)
+     \o (IF od.long # E THEN (IF od.short # 0 THEN <<44, SPACE>> ELSE E) \o fB \o <<BACKSLASH, DASH, BACKSLASH, DASH>> \o ManQ(s.nsLong[o]) \o fR ELSE E)
+     \o (IF od.optional THEN <<SPACE, LBRACK>> \o fI \o ManQ(od.valueName) \o <<EQ>> \o ManQ(QuoteV(od.optvals)) \o fR \o <<RBRACK>>
+         ELSE IF od.valueName # E THEN <<SPACE>> \o fI \o ManQ(od.valueName) \o fR ELSE E)
+     \o (IF od.mask # E THEN (IF od.mask = <<DASH>> THEN E ELSE DefaultOpen \o ManQ(od.mask) \o fR \o <<62>>)
+         ELSE IF od.defaults # <<>> THEN DefaultOpen \o ManQ(QuoteV(od.defaults)) \o fR \o <<62>>
+         ELSE IF key # E THEN DefaultOpen \o <<36>> \o ManQ(key) \o fR \o <<62>> ELSE E)
+     \o (IF od.required THEN <<SPACE, 40>> \o fI \o <<114, 101, 113, 117, 105, 114, 101, 100>> \o fR \o <<41>> ELSE E)
+     \o fP
+\* texts the man formatter passes through unchanged: no back-quote (bold markup) and no backslash
+PlainForMan(t) == \A i \in 1..Len(t) : t[i] # 96 /\ t[i] # BACKSLASH
+StringsKnown(od) == \A k \in 1..Len(od.defaults) : IsPrintKnownS(od.defaults[k])
+
 ManOK(lines, s) ==
   LET d == s.d
       vis(o) == CmdVisibleM(d, d.opts[o].cmd) /\ GroupShows(s, d.opts[o].group) /\ ShowOpt(d.opts[o])
@@ -144,6 +168,16 @@ ManOK(lines, s) ==
           d.opts[o].long # E /\ IndexOf(s.nsLong[o], BACKSLASH) = 0 =>
             (IF vis(o) THEN \E i \in 1..Len(lines) : IsSubstr(ManLong(s.nsLong[o]), lines[i])
              ELSE (s.nsLong[o] \notin visLongs) => \A i \in 1..Len(lines) : ~IsSubstr(ManLong(s.nsLong[o]), lines[i]))
+     /\ \A o \in 1..Len(d.opts) :                                  \* every visible option has its entry, attribute by attribute, and its description
+          (vis(o) /\ StringsKnown(d.opts[o]) /\ \A k \in 1..Len(d.opts[o].optvals) : IsPrintKnownS(d.opts[o].optvals[k])) =>
+             \E i \in 1..Len(lines) :
+                /\ lines[i] = ManEntry(s, o)
+                /\ (d.opts[o].desc # E /\ PlainForMan(d.opts[o].desc)) =>
+                       LET dl == Split(d.opts[o].desc, NL) IN
+                       i + Len(dl) <= Len(lines) /\ \A k \in 1..Len(dl) : lines[i + k] = dl[k]
+     /\ \A c \in 2..Len(d.cmds) :                                    \* aliases of visible commands are listed
+          (CmdVisibleM(d, c) /\ d.cmds[c].aliases # <<>>) =>
+             \E i \in 1..Len(lines) : lines[i] = fB \o <<65, 108, 105, 97, 115, 101, 115>> \o fP \o <<COLON, SPACE>> \o ManQ(Join(d.cmds[c].aliases, <<44, SPACE>>))
      /\ \A c \in 2..Len(d.cmds) :
           LET hdr == <<DOT, 83, 83, SPACE>> \o Join(CmdPathM(d, c), <<SPACE>>) IN
           IF CmdVisibleM(d, c) THEN \E i \in 1..Len(lines) : lines[i] = hdr
